@@ -288,6 +288,9 @@ func registerK8sIntrinsics(e *Engine) {
 		}
 		return tuple{(*value)(nil), iface{}}
 	})
+	// retry loops: no real waiting, no jitter
+	e.reg("time.Sleep", noop)
+	e.reg("k8s.io/apimachinery/pkg/util/wait.Jitter", func(fr *frame, args []value) value { return args[0] })
 	e.reg("k8s.io/client-go/util/flowcontrol.(*Backoff).GC", noop)
 	e.regPrefix("(*k8s.io/client-go/util/flowcontrol.Backoff).", noop)
 	// metrics recorders
